@@ -194,16 +194,16 @@ OnUpE(st, h) ==
 (* Cluster._finalize_add *)
 FinalizeAdd(st, h, setUp) == UpdAllPools(LsnEmit(IF setUp THEN SetUp(st, h) ELSE st, "add", h))
 
-(* Cluster.on_add (the control connection's refresh for refresh_nodes=True is done by the caller) *)
-OnAddE(st, h) ==
-    IF ClusterShut THEN st
-    ELSE LET s1 == LbpEmit(st, "add", h) IN
-         IF h \in Ignored THEN FinalizeAdd(s1, h, FALSE)
-         ELSE LET n  == NewN(s1, h, "add")
-                  s2 == Fold(LAMBDA x, s : SessAdd(x, s, h, "add", n), s1, Sessions)
-              IN IF HasFuture(h)
-                 THEN [s2 EXCEPT !.grp = @ @@ (<<h, "add", n>> :> [left |-> Sessions, ok |-> TRUE])]
-                 ELSE FinalizeAdd(s2, h, TRUE)
+(* Cluster.on_add after the load-balancing policies and the control connection were told *)
+OnAddTail(st, h) ==
+    IF h \in Ignored THEN FinalizeAdd(st, h, FALSE)
+    ELSE LET n  == NewN(st, h, "add")
+             s2 == Fold(LAMBDA x, s : SessAdd(x, s, h, "add", n), st, Sessions)
+         IN IF HasFuture(h)
+            THEN [s2 EXCEPT !.grp = @ @@ (<<h, "add", n>> :> [left |-> Sessions, ok |-> TRUE])]
+            ELSE FinalizeAdd(s2, h, TRUE)
+(* Cluster.on_add(host, refresh_nodes=False), as called for a host found by a node-list refresh *)
+OnAddE(st, h) == IF ClusterShut THEN st ELSE OnAddTail(LbpEmit(st, "add", h), h)
 
 (* Cluster.remove_host + on_remove, without the node-list refresh ControlConnection.on_remove does *)
 OnRemoveE(st, h) ==
@@ -215,13 +215,19 @@ OnRemoveE(st, h) ==
                   s3 == LsnEmit(s2, "remove", h)
               IN Detach(s3, h, TRUE)
 
-(* ControlConnection._refresh_node_list_and_token_map against what the control node reports; needs a usable connection *)
+(* ControlConnection._refresh_node_list_and_token_map against what the control node reports *)
+DoRefresh(st) ==
+    LET adds == {h \in peers : ~st.known[h] /\ ~st.removed[h]}
+        s1 == Fold(LAMBDA x, h : OnAddE([x EXCEPT !.known[h] = TRUE, !.up[h] = "N"], h), st, adds)
+        rems == {h \in Hosts : s1.known[h] /\ h \notin peers}
+    IN Fold(LAMBDA x, h : OnRemoveE(x, h), s1, rems)
+(* ControlConnection.refresh_node_list_and_token_map: a defunct connection makes it signal the control host down *)
 Refresh(st) ==
-    IF st.ctl # "open" THEN st
-    ELSE LET adds == {h \in peers : ~st.known[h] /\ ~st.removed[h]}
-             s1 == Fold(LAMBDA x, h : OnAddE([x EXCEPT !.known[h] = TRUE, !.up[h] = "N"], h), st, adds)
-             rems == {h \in Hosts : s1.known[h] /\ h \notin peers}
-         IN Fold(LAMBDA x, h : OnRemoveE(x, h), s1, rems)
+    CASE st.ctl = "open"   -> DoRefresh(st)
+      [] st.ctl = "broken" -> (IF ClusterShut THEN st ELSE Submit(st, TOnDown(Ctl, FALSE, FALSE)))
+      [] OTHER             -> st
+(* Cluster.on_add(host) as the reconnector calls it: refresh_nodes=True *)
+OnAddRefreshE(st, h) == IF ClusterShut THEN st ELSE OnAddTail(Refresh(LbpEmit(st, "add", h)), h)
 
 (* Cluster._cleanup_failed_on_up_handling *)
 Cleanup(st, h) ==
@@ -283,19 +289,18 @@ RunRecon(st, t) ==
     ELSE CASE mode[h] = "refuse" -> IF ClusterShut THEN st ELSE [st EXCEPT !.sched = BagAdd(@, t)]
            [] mode[h] = "auth"   -> [st EXCEPT !.authFailed[h] = TRUE]            \* gives up; stays the host's handler
            [] mode[h] = "ok"     ->
-                LET s1 == IF t.f2 THEN Refresh(OnAddE(st, h)) ELSE OnUpE(st, h)   \* on_add(host) refreshes the node list
+                LET s1 == IF t.f2 THEN OnAddRefreshE(st, h) ELSE OnUpE(st, h)
                 IN Detach(s1, h, FALSE)                                       \* callback: get_and_set_reconnection_handler(None), no cancel
 
-(* ControlConnection._reconnect, first half: connect to host 1, register, refresh *)
+(* ControlConnection._reconnect, first half: _reconnect_internal connects to host 1, registers, refreshes with the new connection *)
 RunCtlReconnect(st) ==
     IF ClusterShut THEN st                                            \* _try_connect closes the new connection and raises
-    ELSE Submit(Refresh([st EXCEPT !.ctl = "open", !.ctlPend = TRUE]), TCtlSet)
-(* ... second half: _set_new_connection.  The refresh above already used the new connection. *)
+    ELSE Submit(DoRefresh([st EXCEPT !.ctlPend = TRUE]), TCtlSet)
+(* ... second half: _set_new_connection(conn) *)
 RunCtlSet(st) ==
-    IF ClusterShut
-    THEN IF "D3_ctl_after_shutdown" \in Fixed THEN [st EXCEPT !.ctlPend = FALSE]          \* repaired: closed instead of installed
-         ELSE [st EXCEPT !.ctlPend = FALSE, !.ctl = "open"]
-    ELSE [st EXCEPT !.ctlPend = FALSE]
+    IF ClusterShut /\ "D3_ctl_after_shutdown" \in Fixed
+    THEN [st EXCEPT !.ctlPend = FALSE]                               \* repaired: closed instead of installed
+    ELSE [st EXCEPT !.ctlPend = FALSE, !.ctl = "open"]
 
 RunTask(st, t) ==
     CASE t.k = "OnDown"       -> RunOnDown(st, t)
@@ -303,7 +308,8 @@ RunTask(st, t) ==
       [] t.k = "PoolShut"     -> RunPoolShut(st, t)
       [] t.k = "Recon"        -> RunRecon(st, t)
       [] t.k = "OnUp"         -> OnUpE(st, t.h)
-      [] t.k = "RemoveHost"   -> Refresh(OnRemoveE(st, t.h))       \* ControlConnection.on_remove refreshes the node list
+      [] t.k = "RemoveHost"   -> IF st.known[t.h] /\ ~ClusterShut THEN Refresh(OnRemoveE(st, t.h))   \* ControlConnection.on_remove refreshes
+                                 ELSE OnRemoveE(st, t.h)
       [] t.k = "RefreshIf"    -> Refresh(st)
       [] t.k = "CtlReconnect" -> RunCtlReconnect(st)
       [] t.k = "CtlSet"       -> RunCtlSet(st)
@@ -413,7 +419,7 @@ CtlFail ==
 ShutdownA ==                      \* is_shutdown, scheduler.shutdown(), control_connection.shutdown()
     /\ phase = 0
     /\ phase' = 1
-    /\ Commit([Cur EXCEPT !.ctl = IF ctlPend THEN "open" ELSE "closed"])     \* the connection being installed is not the one closed
+    /\ Commit([Cur EXCEPT !.ctl = "closed"])                        \* a connection still being installed is not the one closed
     /\ act' = A("ShutdownA", NoT, 0, 0, "")
     /\ UNCHANGED <<mode, peers, budget, req>>
 ShutdownS ==                      \* session.shutdown() for every session: initial futures cancelled, pools shut
@@ -454,7 +460,7 @@ Next ==
 Spec == Init /\ [][Next]_vars
 
 -----------------------------------------------------------------------------
-NOpen == (IF ctl = "open" THEN 1 ELSE 0) + leaked
+NOpen == (IF ctl = "open" THEN 1 ELSE 0) + (IF ctlPend THEN 1 ELSE 0) + leaked
          + Cardinality({<<s, h>> \in Sessions \X AllHosts : pools[s][h] = "open"})
          + BagCount(exec, LAMBDA t : t.k = "PoolShut" /\ t.f1)
 
@@ -479,14 +485,13 @@ RemovedNotReconnected ==
                  /\ \A h \in Hosts : removed[h] => (recon[h] = "none" /\ LiveRecons(h) = 0)
 NotifiedOnce == \A h \in Hosts : lsnUp[h] <= 1 /\ lsnAdd[h] <= 1 /\ lbpUp[h] <= 1
 UpNotified ==
-    phase = 0 => \A h \in Hosts : (Subject(h) /\ up[h] = "T" /\ wentDown[h]) => (lsnUp[h] + lsnAdd[h] >= 1 /\ h \in lbpLive)
+    phase = 0 => \A h \in Hosts : (Subject(h) /\ up[h] = "T" /\ wentDown[h]) => lsnUp[h] + lsnAdd[h] >= 1
 UpHasPools ==
     Quiescent => \A h \in Hosts : (Subject(h) /\ up[h] = "T") => \A s \in Sessions : pools[s][h] = "open"
 
 (* ---- C45 ---- *)
 AllClosed == Returned => NOpen = 0
 Refused == \A s \in Sessions : req[s] # "pending"
-NothingScheduledAfterShutdown == [][ClusterShut => sched' = sched]_vars
 
 \* vacuity witnesses (each must be violated = reachable)
 Witness_Reconnected == ~(\E h \in Hosts : wentDown[h] /\ up[h] = "T" /\ lsnUp[h] = 1)
